@@ -555,8 +555,11 @@ class Dep:
             m |= av.l
             if av.p:
                 m |= self.all_of(name, av.p)
-        self.sink(f, I, "foreign-call-argument:" + str(callee), m)
-        self.foreign_calls.append((name, I.id, callee))
+        if callee not in getattr(self, "internal_ext", ()):
+            # (a function of the library that this partial build does not contain is analysed in the full configuration; here it only
+            # propagates: it may write what it can reach, its result may depend on its inputs)
+            self.sink(f, I, "foreign-call-argument:" + str(callee), m)
+            self.foreign_calls.append((name, I.id, callee))
         # it may also write anything it can reach; its result may depend on its inputs
         for a in args:
             av = self.val(f, a)
